@@ -214,6 +214,15 @@ def registry_complete(dummy):
     if len(searchers) != nonempty or len(searchers) < pinned["keyword_files"]:
         return hx.fail("keyword searchers != non-empty keyword files", searchers=len(searchers), files=nonempty,
                        baseline=pinned["keyword_files"]), True
+    # configuration must not leak from one build to the next (history of builds in one process)
+    r1 = build_registry(include=["base64"])
+    r2 = build_registry(include=["hex"])
+    r3 = build_registry()
+    names2 = {getattr(f, "__name__", None) for f in r2 if not hasattr(f, "args")}
+    want2 = {fn.__name__ for qn, fn in ALL_DECS.items() if qn.startswith("hex.")}
+    if names2 != want2 or len(r3) != len(reg) or len([f for f in r1 if hasattr(f, "args")]) != nonempty:
+        return hx.fail("a registry build depends on builds made before it", second=sorted(n for n in names2 if n), want=sorted(want2),
+                       sizes=(len(r1), len(r2), len(r3), len(reg))), True
     fs = FakeFS("/kw", {"": {"only": b"zz\n"}})
     custom = with_fs(fs, lambda: build_registry("/kw"))
     cust_fns = [f for f in custom if not hasattr(f, "args")]
